@@ -9,6 +9,7 @@ import (
 	"fmt"
 	"io"
 	"reflect"
+	"strings"
 
 	"github.com/protolambda/zrnt/eth2/beacon/altair"
 	"github.com/protolambda/zrnt/eth2/beacon/bellatrix"
@@ -107,6 +108,11 @@ func (s *sim) faultEnumerate(parent *stateBox, b *blockRec, env *common.BeaconBl
 	target := common.Slot(b.slot) + common.Slot(s.cfg.SPE)
 	ctx := newCountingCtx(-1)
 	if err := common.ProcessSlots(ctx, w.spec, box.epc, box.st, target); err != nil {
+		if strings.Contains(err.Error(), "no active validators") || w.activeSetRunsOutOf(parent.st, uint64(target)) {
+			// one epoch beyond the block every validator has exited: the chain (of the specification as well) ends there
+			s.res.Stat("c18_slots_beyond_the_end_of_the_chain", 1)
+			return
+		}
 		s.viol("C18", "undisturbed-run-differs", fmt.Sprintf("ProcessSlots %d -> %d: %v", cur, target, err))
 		return
 	}
